@@ -1236,18 +1236,32 @@ def h_json_kinds(env):
     return out
 
 
-def h_ndjson_lines(env, nmax=2):
-    """NDJsonProtocolReader._read_json_line look-ahead (_unused_value): step a (required), stream step s
-    (0..nmax items, optional values may be null), step b (required)."""
+def h_ndjson_lines(env, nmax=2, pattern="VSV"):
+    """NDJsonProtocolReader._read_json_line look-ahead (_unused_value) over a protocol whose steps follow
+    `pattern` (V = required value step, S = stream step of 0..nmax items; values of the first stream may
+    be null).  The read loop is the one the generated NDJSON readers use (value: required=True once;
+    stream: required=False until MISSING_SENTINEL)."""
     import json as real_json
     J = env.J
-    n = env.choice("n", nmax + 1)
-    a = env.int("a", -2**31, 2**31 - 1)
-    items = []
-    for i in range(n):
-        items.append(None if env.choice("s%d.null" % i, 2) else env.int("s%d" % i, 0, 255))
-    b = env.bool("b")
-    objs = [{"a": a}] + [{"s": x} for x in items] + [{"b": b}]
+    steps = ["%s%d" % (c.lower(), k) for k, c in enumerate(pattern)]
+    vals, objs = [], []
+    first_stream = True
+    for k, c in enumerate(pattern):
+        if c == "V":
+            v = env.int("v%d" % k, -2**31, 2**31 - 1) if k % 2 == 0 else env.bool("v%d" % k)
+            vals.append(v)
+            objs.append({steps[k]: v})
+        else:
+            n = env.choice("n%d" % k, nmax + 1)
+            items = []
+            for i in range(n):
+                if first_stream and env.choice("s%d_%d.null" % (k, i), 2):
+                    items.append(None)
+                else:
+                    items.append(env.int("s%d_%d" % (k, i), 0, 255))
+            first_stream = False
+            vals.append(items)
+            objs.extend({steps[k]: x} for x in items)
     if env.mode == "sym":
         lines = []
         for o in objs:
@@ -1264,16 +1278,20 @@ def h_ndjson_lines(env, nmax=2):
     rd._unused_value = None
 
     def run():
-        ra = rd._read_json_line("a", True)
-        got = []
-        while True:
-            env.tick("stream lines", nmax + 3)
-            x = rd._read_json_line("s", False)
-            if x is J.MISSING_SENTINEL:
-                break
-            got.append(x)
-        rb = rd._read_json_line("b", True)
-        return ra, got, rb
+        out = []
+        for k, c in enumerate(pattern):
+            if c == "V":
+                out.append(rd._read_json_line(steps[k], True))
+                continue
+            got = []
+            while True:
+                env.tick("stream lines", (nmax + 1) * pattern.count("S") + 1)
+                x = rd._read_json_line(steps[k], False)
+                if x is J.MISSING_SENTINEL:
+                    break
+                got.append(x)
+            out.append(got)
+        return out
     try:
         ok, res = env.attempt(run)
     finally:
@@ -1282,7 +1300,18 @@ def h_ndjson_lines(env, nmax=2):
     if not ok:
         return unexpected(env, "lines.no-exception", res)
     env.reach("lines.no-exception")
-    ra, got, rb = res
-    env.check("lines.values==written", AND(EQ(ra, a), len(got) == len(items), AND(*[EQ(x, y) for x, y in zip(got, items)]) if items and len(got) == len(items) else True, EQ(rb, b)),
-              "py:ndjson:_read_json_line:values-differ", "step values read differ from the lines written")
-    env.check("lines.all-lines-consumed-once", rd._stream.reads == len(objs), "py:ndjson:_read_json_line:line-count")
+    same = []
+    for k, c in enumerate(pattern):
+        if c == "V":
+            same.append(EQ(res[k], vals[k]))
+        else:
+            same.append(len(res[k]) == len(vals[k]))
+            if len(res[k]) == len(vals[k]):
+                same.extend(EQ(x, y) for x, y in zip(res[k], vals[k]))
+    env.check("lines.values==written", AND(*same), "py:ndjson:_read_json_line:%s:values-differ" % pattern, "step values read differ from the lines written")
+    # every line is read exactly once; in addition each stream step that ends at EOF (the one owning the
+    # last line, and every empty stream after it) reads the EOF marker once
+    owners = [k for k, c in enumerate(pattern) if c == "V" or len(vals[k]) > 0]
+    last_owner = owners[-1] if owners else 0
+    eof_reads = sum(1 for k, c in enumerate(pattern) if c == "S" and k >= last_owner)
+    env.check("lines.all-lines-consumed-once", rd._stream.reads == len(objs) + eof_reads, "py:ndjson:_read_json_line:%s:line-count" % pattern)
